@@ -163,6 +163,12 @@ def mutations(h, sigma):
                            ("empty", ""), ("huge", "1" + "0" * 30), ("hugedigits", "9" * 5000), ("zero", "0"), ("hex", hex(v)), ("space", " " + num)):
             if rep != num:
                 out.append((f"num@{a}:{label}", h[:a] + rep + h[b:]))
+        if "pbkdf2" in h[:40].lower() or h.startswith(("$scram$", "$p5k2$")):
+            # PBKDF2-based formats allow up to 2^32-1 iterations, the C library underneath 2^31-1: the values in
+            # between (never computed: refused at once) -- decimal, and hexadecimal for the formats that write hex
+            for label, v in (("int31", 2**31), ("int32max", 2**32 - 1), ("int32", 2**32), ("int63", 2**63)):
+                rep = format(v, "x") if h.startswith("$p5k2$") else str(v)
+                out.append((f"num@{a}:{label}", h[:a] + rep + h[b:]))
     # two-digit windows at the start of the string and of every field: every value 00..99 (a small decimal field --
     # cisco_type7's offset, bcrypt's cost -- is enumerated completely: an alias may sit anywhere in its range)
     starts = [0] + [i + 1 for i, ch in enumerate(h) if ch in SEPS]
